@@ -269,6 +269,17 @@ func checkEquals(rec *stats.Recorder, c eqCase) (msg string, known string) {
 	for i, m := range c.Mutants {
 		add(m, dyn.BuildOpts{}, "mutant:"+c.Kinds[i])
 	}
+	isComplexKey := t.Ref != nil && S.Lookup(*t.Ref).Kind == "complexkey"
+	if isComplexKey {
+		// the same key part with the parameters removed / replaced: equal under key equality
+		n := S.Lookup(*t.Ref)
+		bare := v.Clone()
+		delete(bare.Flds, "$params")
+		add(bare, dyn.BuildOpts{}, "key part only (no $params)")
+		other := v.Clone()
+		other.Flds["$params"] = aval.Valid(S, schema.RI(*n.Params))
+		add(other, dyn.BuildOpts{}, "key part with other $params")
+	}
 	labels := []string{}
 	for _, k := range c.Kinds {
 		labels = append(labels, "mutation="+k[strings.LastIndex(k, "/")+1:])
@@ -328,6 +339,41 @@ func checkEquals(rec *stats.Recorder, c eqCase) (msg string, known string) {
 			for k := range pool {
 				if eq[i][j] && eq[j][k] && !eq[i][k] {
 					return fail("Equals is not transitive over %q, %q, %q", pool[i].desc, pool[j].desc, pool[k].desc)
+				}
+			}
+		}
+	}
+	if isComplexKey && dyn.HasMethod(pool[0].rv, "ComplexKeyEquals") {
+		// key equality (ComplexKeyEquals / ComputeComplexKeyHash): the key part decides, parameters are ignored
+		keyPart := func(a *aval.V) *aval.V {
+			c := a.Clone()
+			delete(c.Flds, "$params")
+			return c
+		}
+		keq := make([][]bool, len(pool))
+		khash := make([]uint32, len(pool))
+		if p, pv, st := hx.Try(func() {
+			for i := range pool {
+				keq[i] = make([]bool, len(pool))
+				for j := range pool {
+					keq[i][j] = dyn.CallBool(pool[i].rv, "ComplexKeyEquals", pool[j].rv)
+				}
+				khash[i] = dyn.CallHash(pool[i].rv, "ComputeComplexKeyHash")
+			}
+		}); p {
+			return fmt.Sprintf("ComplexKeyEquals / ComputeComplexKeyHash panicked: %v\n%s", pv, st), ""
+		}
+		for i := range pool {
+			for j := range pool {
+				same := aval.Equal(keyPart(pool[i].abs), keyPart(pool[j].abs))
+				if pool[i].abs.HasNaN() || pool[j].abs.HasNaN() {
+					continue
+				}
+				if same != keq[i][j] && !(keq[i][j] && onlyZeroSigns(keyPart(pool[i].abs), keyPart(pool[j].abs))) {
+					return fail("ComplexKeyEquals(%q, %q) = %v, but the key parts are equal = %v", pool[i].desc, pool[j].desc, keq[i][j], same)
+				}
+				if keq[i][j] && khash[i] != khash[j] && !onlyZeroSigns(keyPart(pool[i].abs), keyPart(pool[j].abs)) {
+					return fail("two keys equal under key equality have different key hashes (%08x vs %08x): %q [%s] and %q [%s]", khash[i], khash[j], pool[i].desc, pool[i].abs.Canon(), pool[j].desc, pool[j].abs.Canon())
 				}
 			}
 		}
